@@ -7,6 +7,7 @@ What is extracted (the hand model `Context/Model.lean` is *defined in terms of* 
   patchOperands  operand order of the list display in Logger.patch
   kwargsShadow   for bind / contextualize / the logging methods: the keyword names their own named parameters
                  (after name mangling) take away from **kwargs, i.e. keys that cannot reach `extra` that way
+  configureCopies whether configure(extra=) stores a copy of its argument (never the caller's dict itself)
   patchDedup     whether Logger.patch skips a patcher that is already (==) in the list
   logPhases      relative order of `core.patcher(...)`, `for patcher in patchers`, `for handler in ...emit`
   resetOn        the ways of leaving a contextualize block (normal / Exception / BaseException) that run
@@ -647,9 +648,31 @@ def generate():
                 if len(inner) == 1 and isinstance(inner[0], ast.With):
                     inner = inner[0].body
                 srcs = [_u(x) for x in inner]
-                if srcs not in (["self._core.extra.clear()", "self._core.extra.update(extra)"],
-                                ["self._core.extra = dict(extra)"], ["self._core.extra = {**extra}"]):
+                # does the core end up with its OWN dict (a copy of the argument), or with the caller's?
+                copies = None
+                if srcs == ["self._core.extra.clear()", "self._core.extra.update(extra)"]:
+                    copies = True
+                elif len(inner) == 1 and isinstance(inner[0], ast.Assign) and _u(inner[0].targets[0]) == "self._core.extra":
+                    def kind(v):
+                        """copy / alias / None (not understood)"""
+                        t = _u(v)
+                        if t in ("dict(extra)", "{**extra}", "extra.copy()", "dict(**extra)"):
+                            return "copy"
+                        if t == "extra":
+                            return "alias"
+                        if isinstance(v, ast.IfExp):
+                            ks = {kind(v.body), kind(v.orelse)}
+                            if None in ks:
+                                return None
+                            return "alias" if "alias" in ks else "copy"   # some inputs are stored as they are
+                        return None
+                    kd = kind(inner[0].value)
+                    copies = {"copy": True, "alias": False}.get(kd)
+                if copies is None:
                     raise Unsupported("configure: extra branch changed: %r" % srcs)
+                body += ("/-- `configure(extra=…)`: does the core keep its OWN dict (a copy of the argument) – or the very\n"
+                         "dict object the caller passed (for some or all arguments)? -/\n"
+                         "def configureCopies : Bool := %s\n\n" % ("true" if copies else "false"))
                 found["extra"] = True
         if not all(found.values()):
             raise Unsupported("configure: branches not found %r" % found)
